@@ -167,6 +167,18 @@ pub fn panic_loc(p: &str) -> String {
     let loc = p.rsplit(" @ ").next().unwrap_or("?");
     // strip everything before the crate-relative path to keep keys stable
     let loc = loc.trim_start_matches("/repo/");
+    // standard library locations: drop the toolchain-specific prefix
+    if let Some(i) = loc.find("/library/") {
+        if loc.starts_with("/rustc/") {
+            return format!("std:{}", &loc[i + 9..]);
+        }
+    }
+    // alternative repository trees (mutant testing) map to the same keys
+    if let Ok(repo) = std::env::var("VERIF_REPO") {
+        if let Some(rest) = loc.strip_prefix(&format!("{}/", repo.trim_end_matches('/'))) {
+            return rest.to_string();
+        }
+    }
     loc.to_string()
 }
 
